@@ -2,21 +2,39 @@
 spec/TtxSearch.tla (walk of _vbi_cache_foreach_page one iteration per action + search.c stop logic)
 MC: Exact/Sound/BoundedWalk invariants + Termination (liveness, fair spec)
 GEN: every terminal state of the bounded model -> API-level behaviour with predicted results
-REPLAY: harness/drv_search.c on the real library, populations transmitted through vbi_decode()."""
+REPLAY: harness/drv_search.c on the real library, populations transmitted through vbi_decode().
+Pattern layer: spec/TtxMatch.tla (independent matcher), TtxMatchPage.tla (what successive calls report on pages of glyph rows,
+acceptance of any result sequence), TtxPatSpace.tla (pattern space by index), TtxMatchRows.tla (generated row texts),
+TtxMatchDet.tla (named deviation D66: Ambiguous, UreScan), Gen_TtxMatch.tla (generator), Judge_TtxMatch.tla (acceptance of
+diverging sequences), MC_TtxMatchFast.tla (the evaluation short cuts of the reference = TtxMatch!Occ)."""
 import json, shutil, os, random, collections
 from vlib import tlc, build, core
 
 MANIFEST = dict(
     level="model_checking",
     engine="tlc-mc+replay",
-    technique="TLA+ spec TtxSearch checked exhaustively by TLC (safety + liveness); all generated call histories replayed on the real vbi_search API with a watchdog and compared result by result",
+    technique="TLA+ spec TtxSearch checked exhaustively by TLC (safety + liveness); all generated call histories replayed on the real vbi_search API "
+              "with a watchdog and compared result by result; TLC enumerates a regular-expression pattern space and evaluates the reference matcher "
+              "TtxMatch on generated page texts, every pattern is run forwards and backwards through vbi_search_new/next and compared report by report",
     text="TLC explores every population of a small page alphabet (3-4 page slots x subpage sets x match counts), every start "
          "position, both directions and direction changes, and checks Exact (result sequence = declarative reference), Sound, and "
          "Termination as a liveness property of the walk. Every terminal state's call history is replayed through "
-         "vbi_decode/vbi_search_new/vbi_search_next (ASan+UBSan build, 5 s watchdog per call) and each result (status, page, "
-         "subpage, highlighted cells) must equal the model's. Regex/casefold matching is checked against an independent matcher on generated rows.",
+         "vbi_decode/vbi_search_new/vbi_search_next (ASan+UBSan build, 4 s CPU watchdog per call) and each result (status, page, "
+         "subpage, highlighted cells) must equal the model's. Matching: TLC walks the pattern space of TtxPatSpace (all expression trees over "
+         "a b A . [ab] [bC] [^a] ^ $ with * + ? | concatenation up to a size bound, a strided sample of larger ones, common-prefix and restart "
+         "shapes, literal patterns with every character vbi_search_new escapes at the start / middle / end, patterns matching the empty string / the row separator), case folded and not, pairs "
+         "each with a cache of three generated pages (words at the first and last cell searched, at row ends/starts, double width / double height "
+         "text, dense rows) and computes with the independent matcher TtxMatch what a forward and a backward pass must report (page and "
+         "highlighted cells). Diverging result sequences are judged by TLC against the acceptance predicate of TtxMatchPage (real occurrence, "
+         "nothing skipped, NOT_FOUND only at the end). The library's single-path automaton walk (known finding D66) is a named deviation: "
+         "TtxMatchDet!Ambiguous says where it can differ and TtxMatchDet!UreScan predicts its reports exactly; any other divergence is a violation. "
+         "Odd patterns (malformed, nested empty loops, misplaced anchors) must be refused or terminate without crash, leak or empty highlight.",
     note="Bounded: <=4 page slots, subpages {0,1,2}, <=2 occurrences per page, <=4 calls per search in MC; page slots are mapped to "
-         "real decimal/hex page numbers by the driver; the ure regex engine is compared with Python's re on a generated pattern set (sampled, not exhaustive).",
+         "real decimal page numbers by the driver. Pattern space: quick = all trees up to 3 nodes, 900 of the 1701 trees with 4 nodes, strided "
+         "samples (offset from VERIF_SEED) of sizes 5-7 and of the shape / literal families, 6 caches, first 6 reports per pass; thorough = all "
+         "trees up to 4 nodes, 2500 with 5 nodes, all shapes and literals, samples of sizes 6-8, 24 caches, first 9 reports. The oracle is TtxMatch evaluated by TLC "
+         "(no second implementation outside the specification); anchors only where they anchor the pattern or a whole alternative. Patterns "
+         "for which TtxMatchDet!Ambiguous holds are compared with the model of the deviation (UreScan) instead of being exempted.",
 )
 
 SLOTMAPS = {3: [[0x100, 0x101, 0x899], [0x123, 0x456, 0x789], [0x150, 0x300, 0x898]],
@@ -26,7 +44,7 @@ STATUS = {"success": 1, "notfound": 0, "empty": -2}
 
 
 def gen(ctx, cfg, timeout):
-    r = tlc.run("Gen_TtxSearch", cfg, timeout=timeout, collect_tr=True, heap="12g")
+    r = tlc.run("Gen_TtxSearch", cfg, timeout=timeout, collect_tr=True, heap="8g", workers=8)
     if r.violation:
         raise tlc.ToolFailure("GEN run reported " + str(r.violation))
     ctx.add_mc(r, "GEN " + cfg)
@@ -157,7 +175,7 @@ PATS = [  # (ure pattern, casefold, regexp, AST)
     ("(AB|CD)E", 0, 1, _cat(_alt(_lit("AB"), _lit("CD")), _chr("E"))), ("[K-M]9", 0, 1, _cat(_cls("KLM"), _chr("9"))),
     ("Q+R", 0, 1, _cat(_un("plus", _chr("Q")), _chr("R"))), ("a.c", 1, 1, _cat(_chr("a"), _ANY, _chr("c"))),
     ("X *$", 0, 1, _cat(_chr("X"), _un("star", _chr(" ")), _EOL)), ("^rowd", 0, 1, _cat(_BOL, _lit("rowd"))),
-    ("1+1", 0, 0, _lit("1+1")), ("A|B", 0, 0, _lit("A|B")), ("N?OP", 0, 1, _cat(_un("opt", _chr("N")), _lit("OP"))),
+    ("1+1", 0, 0, _lit("1+1")), ("A?B", 0, 0, _lit("A?B")), ("N?OP", 0, 1, _cat(_un("opt", _chr("N")), _lit("OP"))),
     ("x[0-9][0-9]y", 0, 1, _cat(_chr("x"), _cls(DIGITS), _cls(DIGITS), _chr("y"))),
     # occurrences behind a false start: the matcher has to come back to the character after the failed attempt
     ("ab", 0, 0, _lit("ab")), ("abac", 0, 0, _lit("abac")), ("aab", 0, 1, _lit("aab")), ("ZQ+X", 0, 1, _cat(_chr("Z"), _un("plus", _chr("Q")), _chr("X"))),
@@ -166,7 +184,9 @@ PATS = [  # (ure pattern, casefold, regexp, AST)
     ("AB(CD)?", 0, 1, _cat(_lit("AB"), _un("opt", _lit("CD")))), ("A(BC)*", 0, 1, _cat(_chr("A"), _un("star", _lit("BC")))),
     ("AB|ABCD", 0, 1, _alt(_lit("AB"), _lit("ABCD"))),
 ]
-WORDS = ["ZQX", "zqx", "ZX", "ZQQQX", "ABE", "CDE", "L9", "QQR", "abc", "AxC", "1+1", "A|B", "OP", "NOP", "x42y", "x4y", "hello", "Z X", "X",
+# (only characters which the default national subset displays as themselves: 0x7C is shown as U+2016, the literal pattern "A|B"
+#  rightly does not find it - the reference compares displayed characters)
+WORDS = ["ZQX", "zqx", "ZX", "ZQQQX", "ABE", "CDE", "L9", "QQR", "abc", "AxC", "1+1", "A?B", "OP", "NOP", "x42y", "x4y", "hello", "Z X", "X",
          "ZZQX", "aab", "aaab", "ababac", "abab", "QQQR", "ZQZQX", "ZQQZQQX", "ababc", "xaby", "AABE", "ABCX", "ABC", "ABCBX", "ABCD"]
 
 
@@ -203,7 +223,8 @@ def regex_pass(ctx, drv):
         pat, cf, rx, _ = PATS[pi]
         pages = [(pg, rnd.choice(WORDS)) for pg in (0x100, 0x200, 0x300)]
         bid = "rx%d" % t
-        lines = ["B " + bid] + ["P %x 0 0 %s" % (pg, w) for pg, w in pages] + ["N 100 0 %s %d %d" % (pat.replace(" ", "_"), cf, rx)] + ["S 1"] * 4 + ["E"]
+        lines = ["B " + bid] + ["P %x 0 0 %s" % (pg, w) for pg, w in pages] + ["N 100 0 %s %d %d" % (pat.replace(" ", "_"), cf, rx)] + ["L 1 16"] + ["E"]
+        # (a page is reported once per occurrence, 'A(BC)*' finds two in "AABE": the calls go on until NOT_FOUND, at most 16)
         # the search sees rows 1..23; row 3 carries the word
         exp, first = [], {}
         for pg, w in pages:
@@ -240,20 +261,405 @@ def regex_pass(ctx, drv):
     core.report_sanitizers(ctx, err, in_scope=False)
 
 
+# ---- pattern space layer: spec/Gen_TtxMatch.tla (patterns x caches of row texts, expectations by TLC) replayed on the library
+PAGENOS = [0x100, 0x345, 0x899]
+# family "X" of spec/TtxPatSpace.tla (Named): the ure text of each, by position
+NAMED_URE = ["a*", "^", "$", "b*$", "^a*", "(ab)?", "\\n", "[\\P4]", "[\\p9]"]
+SEP_FIRST = 6          # Named[7..9] can match the separator search.c puts between the rows (known finding D65)
+_META = set(".*+?()[]|^$\\")
+
+
+def render(p):
+    """ure syntax of a TtxMatch AST (the transmitter side of the pattern: no matching logic here)"""
+    k = p["k"]
+    if k == "chr":
+        ch = chr(p["c"])
+        return "\\n" if ch == "\n" else ("\\" + ch if ch in _META else ch)
+    if k == "any":
+        return "."
+    if k in ("cls", "ncls"):
+        return "[" + ("^" if k == "ncls" else "") + "".join(chr(c) for c in sorted(p["s"])) + "]"
+    if k == "bol":
+        return "^"
+    if k == "eol":
+        return "$"
+    if k == "cat":
+        return "".join("(" + render(x) + ")" if x["k"] == "alt" else render(x) for x in p["a"])
+    if k == "alt":
+        return "|".join(render(x) for x in p["a"])
+    inner = render(p["p"])
+    if p["p"]["k"] not in ("chr", "any", "cls", "ncls"):
+        inner = "(" + inner + ")"
+    return inner + {"star": "*", "plus": "+", "opt": "?"}[k]
+
+
+def pattern_text(c):
+    """(pattern string, regexp flag) handed to vbi_search_new for a generated case"""
+    if c["f"] == "L":
+        return "".join(chr(x["c"]) for x in c["p"]["a"]), 0
+    if c["f"] == "X":
+        return NAMED_URE[c["k"]], 1
+    return render(c["p"]), 1
+
+
+def row_codes(row):
+    """the 40 transmitted codes of a displayed row [g: glyphs, col: columns] (EN 300 706 12.2 spacing attributes:
+    double width 0x0E / double height 0x0D are set-after, normal size 0x0C is set-at; the blank glyph in front of and behind an
+    enlarged word carries them; the second cell of a double width character is covered, its code ('x') must not show)"""
+    codes = [0x20] * 40
+    g, col = row["g"], row["col"]
+    for i, x in enumerate(g):
+        codes[col[i]] = 0x5F if x["c"] == 0x23 else x["c"]      # the default national subset shows "#" for code 0x5F
+        if x["z"] == "w":
+            codes[col[i] + 1] = ord("x")
+    for i, x in enumerate(g):
+        prev = g[i - 1]["z"] if i else "n"
+        if x["z"] != prev:
+            if x["z"] == "n":
+                ok = x["c"] == 0x20
+                codes[col[i]] = 0x0C
+            else:
+                ok = i > 0 and prev == "n" and g[i - 1]["c"] == 0x20
+                codes[col[i - 1]] = 0x0E if x["z"] == "w" else 0x0D
+            if not ok:
+                raise tlc.ToolFailure("generated row cannot be transmitted: size change without a blank cell for the control code")
+    return codes
+
+
+def cache_script(cache):
+    """transmission of the pages of a generated cache"""
+    lines = []
+    for j, rows in enumerate(cache["pages"]):
+        lines.append("G %x 0" % PAGENOS[j])
+        for r, ri in enumerate(rows, start=1):
+            if r in cache["lower"][j]:
+                # the row below double height characters is not displayed: whatever is transmitted there must not be found
+                lines.append("W %d %s" % (r, "".join("%02x" % ord(ch) for ch in ("abAB." * 8))))
+            elif ri != 1:
+                lines.append("W %d %s" % (r, "".join("%02x" % c for c in row_codes(cache["lib"][ri - 1]))))
+        lines.append("F")
+    return lines
+
+
+def case_script(c, cap, same_object):
+    pat, rx = pattern_text(c)
+    m = "M 100 0 %d %d %s" % (1 if c["cf"] else 0, rx, "".join("%04x" % ord(ch) for ch in pat))
+    return ["I " + c["id"], m, "L 1 %d" % (cap + 1)] + ([] if same_object else [m]) + ["L -1 %d" % (cap + 1), "D"]
+
+
+def split_passes(lines, cap):
+    """driver lines of one case -> (compiled, [fwd, bwd]) with pass = (hits, final status or None)"""
+    compiled = bool(lines) and lines[0].get("new") == 1
+    rl = [x for x in lines if "r" in x]
+    passes = []
+    for _ in range(2):
+        hits, status = [], None
+        while rl and len(hits) < cap + 1:
+            x = rl.pop(0)
+            if x["r"] == 1:
+                hits.append(dict(pg=PAGENOS.index(x["pg"]) + 1 if x.get("pg") in PAGENOS else x.get("pg"), hl=sorted(x.get("hl", []))))
+            else:
+                status = x["r"]
+                break
+        passes.append((hits, status))
+    return compiled, passes
+
+
+def agrees(exp, got):
+    hits, status = got
+    eh = [dict(pg=h["pg"], hl=sorted(h["hl"])) for h in exp["hits"]]
+    return hits == eh and (status == 0 if exp["ends"] else status is None)
+
+
+def run_cases(drv, cache, cases, cap, coin):
+    """one driver process: the cache is transmitted once, then every case (each ends with the marker D); restarts behind a case
+    in which the process ended (watchdog, crash).  -> {id: dict(lines=[...], hang=bool [, died=rc, stderr=...])}, stderr"""
+    out, errs = {}, ""
+    pending = list(cases)
+    stops = 0
+    while pending:
+        script = ["B pat"] + cache_script(cache)
+        for c in pending:
+            script += case_script(c, cap, coin(c))
+        script.append("E")
+        rc, so, se, to = core.run_driver([drv], "\n".join(script) + "\n", timeout=900, env=build.san_env())
+        errs += se
+        cur, complete, ended = {}, set(), False
+        for ln in so.split("\n"):
+            if ln.startswith("{"):
+                o = json.loads(ln)
+                if o.get("end"):
+                    ended = True
+                elif o["id"] != "pat":
+                    d = cur.setdefault(o["id"], dict(lines=[], hang=False))
+                    if o.get("hang"):
+                        d["hang"] = True
+                    elif o.get("done"):
+                        complete.add(o["id"])
+                    else:
+                        d["lines"].append(o)
+        k = 0
+        while k < len(pending) and pending[k]["id"] in complete:
+            out[pending[k]["id"]] = cur[pending[k]["id"]]
+            k += 1
+        if ended and k == len(pending):
+            break
+        if k == len(pending):
+            raise tlc.ToolFailure("driver ended without end marker (rc=%s): %s" % (rc, se[-2000:]))
+        # the process ended within case k
+        d = cur.get(pending[k]["id"], dict(lines=[], hang=False))
+        if not d["hang"]:
+            d["died"] = rc
+            d["stderr"] = se[-3000:]
+        out[pending[k]["id"]] = d
+        pending = pending[k + 1:]
+        stops += 1
+        if stops >= 4:
+            # a library that hangs or dies again and again: the verdict is clear, the rest of this chunk is not replayed
+            for c in pending:
+                out[c["id"]] = dict(lines=[], hang=False, skipped=True)
+            break
+    return out, errs
+
+
+def tla_obs(hits):
+    return "<<" + ", ".join("[pg |-> %d, hl |-> {%s}]" % (h["pg"], ", ".join("<<%d, %d>>" % (r, c) for r, c in h["hl"])) for h in hits) + ">>"
+
+
+def judge(ctx, seed, jc):
+    """TLC (spec/Judge_TtxMatch.tla) decides whether the diverging result sequences are acceptable for C17"""
+    d = os.path.join(ctx.scratch, "judge%d" % len(os.listdir(ctx.scratch)))
+    os.makedirs(d)
+    for f in ("TtxMatch.tla", "TtxMatchPage.tla", "TtxMatchRows.tla", "TtxMatchDet.tla", "TtxPatSpace.tla", "Judge_TtxMatch.tla", "Judge_TtxMatch.cfg"):
+        shutil.copy(os.path.join(tlc.SPEC, f), d)
+    body = ",\n  ".join('[f |-> "%s", n |-> %d, k |-> %d, cf |-> %s, ci |-> %d, dir |-> %d, obs |-> %s, ended |-> %s]' % (
+        c["f"], c["n"], c["k"], "TRUE" if c["cf"] else "FALSE", c["ci"], 1 if dr > 0 else 0, tla_obs(hits), "TRUE" if st == 0 else "FALSE") for c, dr, hits, st in jc)
+    open(os.path.join(d, "JudgeLib.tla"), "w").write("---- MODULE JudgeLib ----\nJCases == <<\n  %s >>\n====\n" % body)
+    r = tlc.run("Judge_TtxMatch", "Judge_TtxMatch", timeout=1500, workers=8, collect_tr=True, cwd=d, heap="8g", env={"VERIF_MATCH_SEED": seed})
+    ctx.add_mc(r, "JUDGE TtxMatchPage acceptance of %d diverging result sequences" % len(jc))
+    v = {e["i"] - 1: e for e in r.tr}
+    if len(v) != len(jc):
+        raise tlc.ToolFailure("judge evaluation incomplete: %d of %d" % (len(v), len(jc)))
+    return [v[i] for i in range(len(jc))]
+
+
+def pattern_pass(ctx, drv, gen_result=None):
+    quick = ctx.tier == "quick"
+    seed = ctx.seed % 60000
+    r = gen_result or tlc.run("Gen_TtxMatch", "Gen_TtxMatch_q" if quick else "Gen_TtxMatch_t", timeout=600 if quick else 3000, workers=8, collect_tr=True,
+                              heap="8g", env={"VERIF_MATCH_SEED": seed})
+    if r.violation:
+        raise tlc.ToolFailure("GEN run reported " + str(r.violation))
+    ctx.add_mc(r, "GEN Gen_TtxMatch (pattern space x row texts, expectations of TtxMatch)")
+    caches = next(t for t in r.tr if t["t"] == "caches")["caches"]
+    cases = sorted((t for t in r.tr if t["t"] == "case"), key=lambda c: (c["ci"], c["f"], c["n"], c["k"], c["cf"]))
+    if not cases:
+        raise tlc.ToolFailure("pattern space generator printed no case")
+    cap = max(len(c["fwd"]["hits"]) for c in cases) - 1
+    if cap < 1:
+        raise tlc.ToolFailure("pattern space generator: no pattern occurs anywhere")
+    for i, c in enumerate(cases):
+        c["id"] = "c%d" % i
+    rnd = random.Random(ctx.seed)
+    # second pass on the same search object: only where the forward pass is expected to end with NOT_FOUND (also by the single path walk)
+    same = {c["id"]: c["fwd"]["ends"] and ((c.get("ure") or {}).get("fwd") or c["fwd"])["ends"] and rnd.random() < 0.5 for c in cases}
+    jobs = []
+    for ci in sorted({c["ci"] for c in cases}):
+        cs = [c for c in cases if c["ci"] == ci]
+        n = max(1, (len(cs) + 399) // 400)
+        jobs += [(ci, cs[k::n]) for k in range(n)]
+    res = core.pmap(lambda j: run_cases(drv, caches[j[0] - 1], j[1], cap, lambda c: same[c["id"]]), jobs, workers=8)
+    got, errs = {}, ""
+    for o, e in res:
+        got.update(o); errs += e
+    stats = collections.Counter()
+    jc = []
+    for c in cases:
+        pat, rx = pattern_text(c)
+        what = "%r casefold=%d regexp=%d (family %s, %d nodes, index %d) on cache %d" % (pat, c["cf"], rx, c["f"], c["n"], c["k"], c["ci"])
+        rp = dict(layer="pattern", seed=seed, cap=cap, what=what, script=["B pat"] + cache_script(caches[c["ci"] - 1]) + case_script(c, cap, same[c["id"]]) + ["E"],
+                  expected=dict(fwd=c["fwd"], bwd=c["bwd"]), case={k: c[k] for k in ("f", "n", "k", "cf", "ci", "amb")})
+        g = got.get(c["id"])
+        ctx.count_case([pat, c["cf"], rx, c["ci"]], nontrivial=bool(c["fwd"]["hits"]))
+        stats["cases"] += 1
+        stats["ambiguous"] += bool(c["amb"])
+        if g is None:
+            raise tlc.ToolFailure("no driver output for case %s (%s)" % (c["id"], what))
+        if g.get("skipped"):
+            stats["not-replayed"] += 1
+            continue
+        if g.get("hang") and stats["hang-confirmed"] >= 2:
+            stats["hang-more"] += 1          # the verdict is reported already; no further confirmation runs
+            continue
+        if g.get("hang"):
+            rc2, out2, err2, to2 = core.run_driver([drv], "\n".join(rp["script"]) + "\n", timeout=120, env=build.san_env())
+            if '"hang":true' in out2 or to2:
+                stats["hang-confirmed"] += 1
+                ctx.violate("pattern", "hang:vbi_search_next", "vbi_search_next did not return within 4 s of CPU time: " + what, rp)
+                continue
+            ctx.notes.append("watchdog hit for %s was not reproducible (machine load)" % what)
+            g = dict(lines=[json.loads(l) for l in out2.split("\n") if l.startswith("{") and '"id":"%s"' % c["id"] in l])
+        if "died" in g:
+            ctx.violate("pattern", "crash:%s" % g["died"], "driver died (rc %s) in %s\n%s" % (g["died"], what, g.get("stderr", "")[-1500:]), rp)
+            continue
+        compiled, passes = split_passes(g["lines"], cap)
+        if not compiled:
+            ctx.violate("pattern", "regex:compile-failed", "vbi_search_new refused " + what, rp)
+            continue
+        both = ((1, "fwd", passes[0]), (-1, "bwd", passes[1]))
+        if same[c["id"]] and passes[0][1] != 0:
+            both = both[:1]      # the forward pass did not end: the backward calls on the same object were a change of direction, not a pass
+        bad = [(dr, nm) for dr, nm, p in both if not agrees(c[nm], p)]
+        for dr, nm, p in both:
+            u = (c.get("ure") or {}).get(nm)
+            if u:
+                stats["urescan-compared"] += 1
+                if not agrees(u, p):      # the model of the deviation is not exact here (no verdict about the library)
+                    stats["urescan-differs"] += 1
+        if not bad:
+            ctx.validated()
+            stats["equal"] += 1
+            if c["fwd"]["hits"]:
+                ctx.sample(dict(pattern=pat, casefold=c["cf"], regexp=rx, forward=c["fwd"], backward=c["bwd"]))
+            continue
+        for dr, nm in bad:
+            hits, st = passes[0 if dr > 0 else 1]
+            ure = (c.get("ure") or {}).get(nm)
+            if st not in (0, None):
+                ctx.violate("pattern", "regex:%s:status %s" % (nm, st), "%s: vbi_search_next returned %s" % (what, st), rp)
+            elif c["amb"] and ure and agrees(ure, (hits, st)):
+                # exactly the named deviation TtxMatchDet!UreScan (known finding D66): the walk along the first accepting transition
+                stats["regex:amb:single-path"] += 1
+                ctx.violate("pattern", "regex:amb:single-path", "%s, %s pass: TtxMatch expects %s%s; library %s%s = TtxMatchDet!UreScan" % (
+                    what, nm, c[nm]["hits"], " then NOT_FOUND" if c[nm]["ends"] else " ...", hits, " then NOT_FOUND" if st == 0 else " ..."), rp)
+            else:
+                jc.append((c, dr, hits, st, rp))
+    limit = 600 if quick else 4000
+    if len(jc) > limit:
+        # a library that diverges everywhere: the unambiguous patterns first (every verdict there is a violation), the rest is left unjudged
+        jc.sort(key=lambda x: (x[0]["amb"], x[0]["id"]))
+        stats["unjudged"] = len(jc) - limit
+        ctx.notes.append("%d diverging result sequences were not judged (limit %d)" % (len(jc) - limit, limit))
+        jc = jc[:limit]
+    if jc:
+        def cut(c, dr, hits, st):
+            """the judge needs the reports up to the first one that differs from the reference (which is acceptable itself)"""
+            eh = [dict(pg=h["pg"], hl=sorted(h["hl"])) for h in c["fwd" if dr > 0 else "bwd"]["hits"]]
+            d = next((i for i in range(min(len(hits), len(eh))) if hits[i] != eh[i]), min(len(hits), len(eh)))
+            return hits[:d + 1], (st if d + 1 >= len(hits) else None)
+        cuts = [cut(c, dr, hits, st) for c, dr, hits, st, rp in jc]
+        verdicts = judge(ctx, seed, [(c, dr, h2, s2) for (c, dr, hits, st, rp), (h2, s2) in zip(jc, cuts)])
+        for (c, dr, hits, st, rp), v in zip(jc, verdicts):
+            nm = "fwd" if dr > 0 else "bwd"
+            exp = c[nm]
+            sep = c["f"] == "X" and c["k"] >= SEP_FIRST
+            ure = (c.get("ure") or {}).get(nm)
+            detail = "%s, %s pass: TtxMatch expects %s%s; library %s%s; judged %s at report %s%s" % (
+                rp["what"], "forward" if dr > 0 else "backward", exp["hits"], " then NOT_FOUND" if exp["ends"] else " ...",
+                hits, " then NOT_FOUND" if st == 0 else " ...", v["v"], v["at"],
+                "; TtxMatchDet!UreScan (single path walk) predicts %s" % (ure["hits"],) if ure else "")
+            if v["v"] == "ok":
+                # a real occurrence of another length than the longest, nothing skipped: the property leaves that open
+                stats["policy" if c["amb"] else "policy-unambiguous"] += 1
+                continue
+            if sep and any(not h["hl"] for h in hits):
+                key = "odd:sep:empty-highlight"
+            elif sep and exp["ends"] and st is None:
+                key = "odd:sep:no-end"
+            elif c["amb"] and not ure and v["v"] in ("skipped", "early-end"):
+                key = "regex:amb:single-path"       # ambiguous pattern with anchors: the walk is not modelled, a miss is the known deviation
+            else:
+                key = "regex:%s:%s" % (nm, v["v"])
+            stats[key] += 1
+            ctx.violate("pattern", key, detail, rp)
+    if stats["not-replayed"]:
+        ctx.notes.append("%d cases were not replayed: their driver process had hung or died 4 times" % stats["not-replayed"])
+    ctx.notes.append("pattern space layer: %s" % dict(stats))
+    core.report_sanitizers(ctx, errs, in_scope=True)
+    ctx.cov["pattern_space"] = dict(stats)
+    return caches
+
+
+# ---- odd patterns: the edge of the pattern language (no reference result: only what C17 demands of every call)
+# vbi_search_new must refuse these (unbalanced class / property number without entry / operator without operand)
+NOCOMPILE = ["[a", "[a\\", "[:alpha", "[ab", "|a", "|", "(|a)", "(*a)", "(+)", "\\p99", "\\p20", "[\\p31]", "\\p18", "(a", "\\"]
+# (a leading operator is a literal character for ure, as in POSIX basic expressions: '*a' finds "*a")
+# anything goes, but every call returns, nothing crashes or leaks, and a reported page highlights something
+WEIRD = ["*a", "+a", "?", "a^b", "a$b", "(^a)*", "^*", "$*", "(^)+a", "a**", "(a*)*", "(a*)+", "(a|b*)*c", "a)", "()", "^^a", "a$$", "\\x41", "\\u0061b", "[a-", "[]a]", "[^]a]",
+         "[a-c-e]", ".*.*.*a", "(a|aa)*b", "((a))", "(((((a)))))", "a|b|c|A|B|C", "[:alpha:]+", "[[:digit:]]", "\\p2,10", "\\P1", "a{2}", "\\", "a\\", "$^", "^$",
+         "(ab|a)(bc|c)?", "x*", "(x*)*", "(a|b)*abb(a|b)*(a|b)*(a|b)*"]
+
+
+def odd_pass(ctx, drv, cache):
+    items = [(p, cf, True) for p in NOCOMPILE for cf in (0, 1)] + [(p, cf, False) for p in WEIRD for cf in (0, 1)]
+
+    def lines_of(pat, cf):
+        return ["M 100 0 %d 1 %s" % (cf, "".join("%04x" % ord(ch) for ch in pat)), "L 1 8", "L -1 8", "D"]
+    pending = list(enumerate(items))
+    errs = ""
+    while pending:
+        script = ["B odd"] + cache_script(cache)
+        for i, (pat, cf, _) in pending:
+            script += ["I o%d" % i] + lines_of(pat, cf)
+        script.append("E")
+        rc, so, se, to = core.run_driver([drv], "\n".join(script) + "\n", timeout=300, env=build.san_env())
+        errs += se
+        res, complete, ended = collections.defaultdict(list), set(), False
+        for ln in so.split("\n"):
+            if ln.startswith("{"):
+                o = json.loads(ln)
+                if o.get("end"):
+                    ended = True
+                elif o.get("done"):
+                    complete.add(o["id"])
+                else:
+                    res[o["id"]].append(o)
+        k = 0
+        for k, (i, (pat, cf, must_fail)) in enumerate(pending):
+            rr = res.get("o%d" % i, [])
+            rp = dict(layer="odd", script=["B odd"] + cache_script(cache) + ["I x"] + lines_of(pat, cf) + ["E"], pattern=pat, casefold=cf)
+            if "o%d" % i not in complete:
+                if any(x.get("hang") for x in rr):
+                    ctx.violate("odd", "hang:vbi_search_next", "pattern %r casefold=%d: vbi_search_next did not return within 4 s of CPU time" % (pat, cf), rp)
+                elif ended:
+                    raise tlc.ToolFailure("odd pattern driver: no result for %r" % pat)
+                else:
+                    sr = core.sanitizer_reports(se)
+                    ctx.violate("odd", "crash:%s" % (":".join(sr[0][:2]) if sr else rc), "pattern %r casefold=%d: the process ended (rc %s)\n%s" % (pat, cf, rc, se[-1500:]), rp)
+                break
+            ctx.count_case(["odd", pat, cf], nontrivial=True)
+            if must_fail and rr and rr[0].get("new") != 0:
+                ctx.violate("odd", "odd:compiled", "vbi_search_new accepted the malformed pattern %r (casefold=%d)" % (pat, cf), rp)
+            elif any(x.get("r") == 1 and not x.get("hl") for x in rr):
+                ctx.violate("odd", "odd:empty-highlight", "pattern %r casefold=%d: SUCCESS with no cell highlighted: %s" % (pat, cf, rr), rp)
+            elif any(x.get("r") not in (None, 0, 1) for x in rr):
+                ctx.violate("odd", "odd:status", "pattern %r casefold=%d: %s" % (pat, cf, rr), rp)
+            else:
+                ctx.validated()
+        else:
+            k = len(pending)
+        pending = pending[k + 1:]
+    core.report_sanitizers(ctx, errs, in_scope=True)
+
+
 def run(ctx):
     quick = ctx.tier == "quick"
     ctx.cov["rule"] = ("behaviours = terminal states of the bounded TtxSearch model (population x start x call sequence), each replayed on the "
-                       "real library; distinct = distinct (population, start, calls) tuples; non-trivial = the spec predicts at least one SUCCESS")
+                       "real library; distinct = distinct (population, start, calls) tuples; non-trivial = the spec predicts at least one SUCCESS; "
+                       "pattern layer: one case = (pattern, casefold, cache of row texts) run forwards and backwards, non-trivial = TtxMatch finds an occurrence")
     ctx.assumptions += ["page slots stand for increasing page numbers; the driver maps them to real decimal/hex numbers",
                         "pattern occurrences are non-overlapping literal occurrences at fixed cells",
-                        "header text is consistent so that no channel switch is inferred"]
+                        "header text is consistent so that no channel switch is inferred",
+                        "pattern layer: texts over a b c A B C blank . * + which the default national subset displays as themselves; "
+                        "forward = leftmost occurrence behind the previous one, backward = last of the successive occurrences of the text in front of the previous hit",
+                        "result sequences that differ from the reference policy (longest match) are accepted when TtxMatchPage!Judge accepts them (length policy left open)"]
     drv = build.build_driver("drv_search")
     # 1. exhaustive model checking of the specification itself
-    r = tlc.run("TtxSearch", "MC_TtxSearch_q" if quick else "MC_TtxSearch_t", timeout=1500, coverage=not quick, heap="12g")
+    r = tlc.run("TtxSearch", "MC_TtxSearch_q" if quick else "MC_TtxSearch_t", timeout=1500, coverage=not quick, heap="8g", workers=8)
     ctx.add_mc(r, "MC safety")
     if r.violation:
         ctx.violate("mc", "mc:%s:%s" % (r.violation["kind"], r.violation["name"]), r.violation["text"])
-    r = tlc.run("TtxSearch", "MC_TtxSearch_live" if quick else "MC_TtxSearch_live_t", timeout=900, heap="12g")
+    r = tlc.run("TtxSearch", "MC_TtxSearch_live" if quick else "MC_TtxSearch_live_t", timeout=900, heap="8g", workers=8)
     ctx.add_mc(r, "MC liveness")
     if r.violation:
         ctx.violate("mc", "mc:%s:%s" % (r.violation["kind"], r.violation["name"]), r.violation["text"])
@@ -274,12 +680,21 @@ def run(ctx):
             items.append((bid, script_for(b, smap, bid, anysub, layout=lay), expected(b, smap, lay), b, smap))
         if items:
             ctx.sample(dict(script=items[len(items) // 2][1], expected=items[len(items) // 2][2]))
-        # 16 parallel driver processes
+        # 8 parallel driver processes
         import concurrent.futures as cf
-        chunks = [items[k::16] for k in range(16)]
-        with cf.ThreadPoolExecutor(16) as ex:
+        chunks = [items[k::8] for k in range(8)]
+        with cf.ThreadPoolExecutor(8) as ex:
             list(ex.map(lambda ch: run_batch(ctx, drv, ch) if ch else None, chunks))
     regex_pass(ctx, drv)
+    # 3. the pattern space: generated patterns x generated row texts, expectations of TtxMatch, named deviation TtxMatchDet
+    if not quick:
+        r = tlc.run("MC_TtxMatchFast", "MC_TtxMatchFast", timeout=1500, workers=8, heap="8g", env={"VERIF_MATCH_SEED": ctx.seed % 60000})
+        ctx.add_mc(r, "MC OccTab/OccF (evaluation short cuts of the reference matcher) = Occ")
+        if r.violation:
+            raise tlc.ToolFailure("the short cuts of the reference matcher differ from TtxMatch!Occ: " + r.violation["text"][:1500])
+    caches = pattern_pass(ctx, drv)
+    # 4. the edge of the pattern language
+    odd_pass(ctx, drv, caches[0])
     ctx.cov["exhaustive"] = True
 
 
@@ -289,6 +704,24 @@ def replay(ctx, rp):
     text = "\n".join(r["script"]) + "\n"
     rc, out, err, to = core.run_driver([drv], text, timeout=60, env=build.san_env())
     print(out)
+    if r.get("layer") in ("pattern", "odd"):
+        lines = [json.loads(l) for l in out.split("\n") if l.startswith("{")]
+        mine = [x for x in lines if x.get("id") not in ("pat", "odd")]
+        if any(x.get("hang") for x in lines):
+            ctx.violate("replay", "hang:vbi_search_next", "hang reproduced", r)
+        elif r["layer"] == "pattern":
+            compiled, passes = split_passes(mine, r["cap"])
+            ok = compiled and agrees(r["expected"]["fwd"], passes[0]) and agrees(r["expected"]["bwd"], passes[1])
+            if not ok:      # the recorded key stands for the judged divergence (the judge is not run again here)
+                ctx.violate("replay", rp["key"], "%s: TtxMatch expects %s, library %s" % (r["what"], r["expected"], passes), r)
+        elif rp["key"] == "odd:compiled" and mine and mine[0].get("new") != 0:
+            ctx.violate("replay", rp["key"], "malformed pattern %r accepted" % r["pattern"], r)
+        elif rp["key"] == "odd:empty-highlight" and any(x.get("r") == 1 and not x.get("hl") for x in mine):
+            ctx.violate("replay", rp["key"], "SUCCESS without highlight reproduced", r)
+        elif rc != 0:
+            ctx.violate("replay", rp["key"], "driver died (rc %s): %s" % (rc, err[-1500:]), r)
+        core.report_sanitizers(ctx, err, in_scope=True)
+        return
     got = [{k: v for k, v in json.loads(l).items() if k != "id"} for l in out.split("\n") if l.startswith("{") and '"r"' in l]
     if '"hang":true' in out:
         ctx.violate("replay", "hang:vbi_search_next", "hang reproduced", r)
